@@ -32,6 +32,7 @@ Accept(e) ==
                                    /\ e.pair_name = ProtoPair(e.pv)[1] /\ e.pair_level = ProtoPair(e.pv)[2]
                                    /\ e.bytes = Field(ProtoPair(e.pv)[1]) \o <<ProtoPair(e.pv)[2]>>
       [] e.ev = "DisplayIsDebug" -> e.display = e.debug
+      [] e.ev = "HeaderNew" -> e.out = e.in
       [] e.ev = "End" -> l = Len(Rec)
       [] OTHER -> FALSE
 
